@@ -13,7 +13,7 @@ RULE = (
     "instance, via an instance that is falsy (defines __len__ == 0), via class with explicit instance, via subclass "
     "instance, classmethod via class / instance / subclass, staticmethod via class / instance} (wrappers only on the "
     "bindings they are written for) x 6 argument patterns (positional, keyword, defaults omitted, keyword-only, all "
-    "keywords, mixed) x body {plain function, generator awaiting a child, generator blocking on a batch item} is "
+    "keywords, mixed) x body {plain function, generator awaiting a child, generator blocking on a batch item, a blocking generator whose outermost activation requests the SAME callable with the same arguments from inside itself - by sync call, .asynq().value() or async_call in turn - and must get the twin's value} is "
     "ENUMERATED COMPLETELY in both tiers (thorough adds random argument values); in addition, for every decorator x body ONE decorated object is reached through all its bindings one after another in seeded orders (class before subclass and the reverse, instance before class ...); for each cell the sync call, "
     ".asynq().value(), yielding .asynq() from a task, async_call (value() and yielded) must all equal a plain-Python twin "
     "evaluated with the same bound instance/class and normalised arguments (sync_fn's twin for the sync call); "
@@ -24,7 +24,8 @@ ASSUMPTIONS = ["bodies are deterministic, so cached wrappers (alru_cache, acache
 UNIT_TIMEOUT = {"quick": 200, "thorough": 1200}
 
 DECOS = ["asynq", "pure", "proxy", "pair", "proxy_pair", "mad", "dedup", "aretry", "alru", "per_instance"]
-BODIES = ["plain", "gen", "batch"]
+BODIES = ["plain", "gen", "batch", "reenter"]
+NO_REENTER = ("proxy", "proxy_pair")  # their bodies only build a future; nothing runs "inside" them
 PATTERNS = [
     ((1, 2), {}),
     ((1,), {"y": 2}),
@@ -88,6 +89,15 @@ def build(deco, body, rt):
     from .. import harness
 
     ctr = itertools.count()
+    ns = World()
+    ns.reenter = None  # set by run_cell: a request for the SAME callable and arguments, issued from inside the running body
+    ns.nested = []
+
+    def maybe_reenter():
+        h = ns.reenter
+        if h is not None:
+            ns.reenter = None
+            ns.nested.append(h())
 
     @A()
     def child(v):
@@ -120,13 +130,25 @@ def build(deco, body, rt):
                 def fn(bound, x, y=10, *, z=100):
                     x = yield child.asynq(x)
                     return ("res", tag_of(bound), x, y, z)
-        else:
+        elif body == "batch":
             if kind == "f":
                 def fn(x, y=10, *, z=100):
                     yield harness.HItem(rt, 0, "b%d" % next(ctr), ("c09", next(ctr)))
                     return ("res", "none", x, y, z)
             else:
                 def fn(bound, x, y=10, *, z=100):
+                    yield harness.HItem(rt, 0, "b%d" % next(ctr), ("c09", next(ctr)))
+                    return ("res", tag_of(bound), x, y, z)
+        else:
+            # the outermost activation asks for the same callable with the same arguments from inside itself
+            if kind == "f":
+                def fn(x, y=10, *, z=100):
+                    maybe_reenter()
+                    yield harness.HItem(rt, 0, "b%d" % next(ctr), ("c09", next(ctr)))
+                    return ("res", "none", x, y, z)
+            else:
+                def fn(bound, x, y=10, *, z=100):
+                    maybe_reenter()
                     yield harness.HItem(rt, 0, "b%d" % next(ctr), ("c09", next(ctr)))
                     return ("res", tag_of(bound), x, y, z)
         return fn
@@ -185,7 +207,6 @@ def build(deco, body, rt):
             return acached_per_instance()(A()(fn))
         raise AssertionError(deco)
 
-    ns = World()
     ns.f = apply("f") if "function" in SUPPORTED[deco] else None
     attrs = {"name": "a", "m": apply("m")}
     if "classmethod_class" in SUPPORTED[deco]:
@@ -274,11 +295,31 @@ def run_cell(deco, body, binding, pat, argvals=None, shared=None):
         v = yield fut_fn()
         return v
 
+    nested_kinds = [
+        ("sync call", (lambda: c(*full, **kw).value()) if pure else (lambda: c(*full, **kw)), exp if pure else exp_sync),
+        (".asynq().value()", (lambda: c(*full, **kw).value()) if pure else (lambda: c.asynq(*full, **kw).value()), exp),
+        ("async_call()", lambda: async_call(c, *full, **kw), exp),
+    ]
+    turn = [0]
+
     def conv(name, fn, want):
+        if body == "reenter":
+            nk = nested_kinds[turn[0] % 3]
+            turn[0] += 1
+            ns.reenter = lambda: outcome(nk[1])
+            del ns.nested[:]
         got = outcome(fn)
         if got != ("val", want):
             viol.append(("convention-disagrees", {"convention": name, "expected": want, "observed": got}))
+        if body == "reenter":
+            if ns.reenter is None and ns.nested:
+                ns.reentered += 1
+                if ns.nested[0] != ("val", nk[2]):
+                    viol.append(("re-entrant-request-disagrees", {"outer_convention": name, "request_from_inside_the_body": nk[0], "expected": nk[2], "observed": ns.nested[0]}))
+            ns.reenter = None
         return 1
+
+    ns.reentered = getattr(ns, "reentered", 0)
 
     rt.attach()
     try:
@@ -326,7 +367,13 @@ def run_cell(deco, body, binding, pat, argvals=None, shared=None):
     finally:
         rt.detach()
         DeduplicateDecorator.tasks.clear()
+        ns.reenter = None
+    REENTERED[0] += ns.reentered
+    ns.reentered = 0
     return viol, nconv
+
+
+REENTERED = [0]
 
 
 def run_shared_namespace(deco, body, order_seed):
@@ -384,6 +431,8 @@ def cells():
     out = []
     for deco in DECOS:
         for body in BODIES:
+            if body == "reenter" and deco in NO_REENTER:
+                continue
             for binding in SUPPORTED[deco]:
                 for pi in range(len(PATTERNS)):
                     out.append((deco, body, binding, pi))
@@ -419,12 +468,14 @@ def run_unit(unit, progress):
     allc = cells()
     a, b = unit["cases"]
     if unit["mode"] == "shared_ns":
-        combos = [(d, bd) for d in DECOS for bd in BODIES]
+        combos = [(d, bd) for d in DECOS for bd in BODIES if not (bd == "reenter" and d in NO_REENTER)]
         for i in range(a, b):
             progress(i)
             deco, body = combos[i % len(combos)]
             viol, nconv = run_shared_namespace(deco, body, tl.case_seed(unit["seed"], ID, i) % 100000)
             res["evaluations"] += nconv
+            c["requests_from_inside_the_running_body"] = c.get("requests_from_inside_the_running_body", 0) + REENTERED[0]
+            REENTERED[0] = 0
             c["shared_namespace_runs"] = c.get("shared_namespace_runs", 0) + 1
             res["nontrivial"].append(hash(("shared", deco, body, i)) & 0xFFFFFFFFFFFF)
             for v in viol[:2]:
@@ -452,6 +503,8 @@ def run_unit(unit, progress):
                 argvals = [v for v in argvals]
         viol, nconv = run_cell(deco, body, binding, PATTERNS[pi], argvals)
         res["evaluations"] += nconv
+        c["requests_from_inside_the_running_body"] = c.get("requests_from_inside_the_running_body", 0) + REENTERED[0]
+        REENTERED[0] = 0
         c["cells"] = c.get("cells", 0) + 1
         c["cells_" + deco] = c.get("cells_" + deco, 0) + 1
         c["cells_binding_" + binding] = c.get("cells_binding_" + binding, 0) + 1
@@ -473,7 +526,7 @@ def run_unit(unit, progress):
 
 def reach(c, tier):
     out = []
-    for k in ["cells_" + d for d in DECOS] + ["cells_binding_" + b for b in BINDINGS] + ["plain_callables", "shared_namespace_runs"]:
+    for k in ["cells_" + d for d in DECOS] + ["cells_binding_" + b for b in BINDINGS] + ["plain_callables", "shared_namespace_runs", "requests_from_inside_the_running_body"]:
         if not c.get(k):
             out.append("%s is zero" % k)
     if c.get("cells", 0) < len(cells()):
